@@ -187,6 +187,7 @@ int main(int argc, char **argv) {
   c.encode = [](const Spec &s) { return encode(s); };
   c.decode = [](const std::string &s) { return decode(s); };
   c.eval = eval;
+  c.primers = legalizationPrimers();
   c.deadline = gThorough ? 3000 : 300;
   return vf::runCheck(o, c);
 }
